@@ -188,6 +188,137 @@ def check_rotation_arc(ctx, cfg, F, H, done):
         done('R-ARCROT', name, bad, it)
 
 
+def _subterms(t, op, out, seen):
+    if t.id in seen:
+        return
+    seen.add(t.id)
+    if t.op == op:
+        out.append(t)
+    for a in t.args:
+        if isinstance(a, tm.T):
+            _subterms(a, op, out, seen)
+
+
+def _match_clamped(theta, m_atom):
+    """theta == min(A, max(m, A - pi)) (any argument order)  ->  A, else None"""
+    if theta.op != 'fmin~' or len(theta.args) != 2:
+        return None
+    for A, mx in ((theta.args[0], theta.args[1]), (theta.args[1], theta.args[0])):
+        if mx.op != 'fmax~' or len(mx.args) != 2 or m_atom not in mx.args:
+            continue
+        low = mx.args[0] if mx.args[1] is m_atom else mx.args[1]
+        if low.op == 'fadd' and A in low.args:
+            k = low.args[0] if low.args[1] is A else low.args[1]
+            if tm.is_const(k) and abs(tm.f_of(k) + 3.141592653589793) < 1e-6:
+                return A
+    return None
+
+
+def check_rotate_towards(ctx, cfg, F, done):
+    """Vec2 / Vec3 / Vec3A (and f64) rotate_towards(rhs, m): the result is self rotated - in the plane (2D) or about normalize(self x rhs) (3D) - by
+    t = min(A, max(m, A - pi)) (2D: times the sign of the signed angle), A = the angle between the operands as computed by angle_between / |angle_to|.
+    So the rotation never exceeds the remaining angle, equals it once m >= A, goes at most to the opposite direction for negative m, and preserves length."""
+    from lift import canon_float
+    Hx = _abstract_harness(F)
+    for name, it in api_roots(F):
+        st = (it.get('self_ty') or '').lstrip('&')
+        tname = st.rsplit('::', 1)[-1]
+        if it.get('trait') or (it.get('name') or '') != 'rotate_towards' or tname not in FLOAT_TYPES:
+            continue
+        body = F.body(it['key'])
+        argtys = body['locals'][1:1 + body['argc']]
+        rty = body['locals'][0]
+        r = Hx.run(it['key'])
+        if r.abort or r.ret is None:
+            ctx.undecided('R-ROTTOW', cfg, name, r.abort or 'diverges')
+            continue
+        views = [ArgView(F, r, i, argtys[i]) for i in range(3)]
+        lanes = value_lanes(F, r.ret, rty)
+        if lanes is None or any(v.lanes is None for v in views):
+            ctx.unverifiable('R-ROTTOW', cfg, name, 'operands / result lanes not found')
+            continue
+        lanes = [canon_float(l) for l in lanes]
+        N = len(lanes)
+        m_atom = views[2].lanes[0]
+        trig = []
+        seen = set()
+        for l in lanes:
+            _subterms(l, 'sin', trig, seen)
+        seen = set()
+        for l in lanes:
+            _subterms(l, 'cos', trig, seen)
+        targs = set(t.args[0] for t in trig)
+        bad = None
+        if len(targs) != 1:
+            done('R-ROTTOW', name, 'the result is not built from the sine and cosine of one angle (%d distinct arguments)' % len(targs), it)
+            continue
+        T = list(targs)[0]
+        alg = nf.Algebra()
+        alg.budget = 600000
+        S = Spec(alg)
+        a = [alg.nf(x) for x in views[0].lanes]
+        b = [alg.nf(x) for x in views[1].lanes]
+        cosang = S.div(S.dot(a, b), alg.sqrt_r(S.mul(S.dot(a, a), S.dot(b, b))))
+        if N == 2:
+            theta = T
+            if theta.op != 'fmul' or len(theta.args) != 2:
+                bad = 'rotation angle is not (clamped angle) * sign'
+            else:
+                cl = [x for x in theta.args if _match_clamped(x, m_atom) is not None]
+                if not cl:
+                    bad = 'rotation angle is not min(A, max(max_angle, A - pi)) * sign(A)'
+                else:
+                    A = _match_clamped(cl[0], m_atom)
+                    sg = [x for x in theta.args if x is not cl[0]][0]
+                    cs = sg.args[2] if sg.op == 'ite' else sg
+                    signed = A.args[0] if A.op == 'fabs' else None
+                    if signed is None or cs.op != 'copysign' or cs.args[1] is not signed:
+                        bad = 'the clamped magnitude is not |angle_to| or the sign factor is not signum(angle_to)'
+                    else:
+                        ac = [x for x in signed.args if x.op == 'acos_approx'] if signed.op == 'fmul' else []
+                        if not ac or not S.eq(alg.nf(ac[0].args[0]), cosang):
+                            bad = 'the signed angle is not acos_approx(a.b / sqrt(|a|^2 |b|^2)) * signum(perp_dot)'
+            if not bad:
+                h = alg.nf(T)
+                s_, c_ = alg.sin_r(h), alg.cos_r(h)
+                exp = [S.sub(S.mul(c_, a[0]), S.mul(s_, a[1])), S.add(S.mul(s_, a[0]), S.mul(c_, a[1]))]
+                got = [alg.nf(l) for l in lanes]
+                if not all(S.eq(g, e) for g, e in zip(got, exp)):
+                    bad = 'result is not self rotated by the clamped angle (cos t x - sin t y, sin t x + cos t y)'
+        else:
+            theta = None
+            if T.op == 'fmul' and len(T.args) == 2 and any(tm.is_const(x) and tm.f_of(x) == 0.5 for x in T.args):
+                theta = [x for x in T.args if not (tm.is_const(x) and tm.f_of(x) == 0.5)][0]
+            A = _match_clamped(theta, m_atom) if theta is not None else None
+            if A is None:
+                bad = 'rotation angle is not min(A, max(max_angle, A - pi)) evaluated at half angle'
+            elif A.op != 'acos_approx' or not S.eq(alg.nf(A.args[0]), cosang):
+                bad = 'A is not acos_approx(a.b / sqrt(|a|^2 |b|^2))'
+            else:
+                cases = cases_with_assignment(lanes, 8)
+                if cases is None:
+                    ctx.undecided('R-ROTTOW', cfg, name, 'too many selections')
+                    continue
+                h = alg.nf(T)
+                s_, c_ = alg.sin_r(h), alg.cos_r(h)
+                cr = S.cross(a[:3], b[:3])
+                inv = S.div(S.c(1), alg.sqrt_r(S.dot(cr, cr)))
+                q = [S.mul(x, inv, s_) for x in cr] + [c_]
+                exp = S.quat_rotate(q, a[:3])
+                n_main = 0
+                try:
+                    for asg, ls in cases:
+                        got = [alg.nf(l) for l in ls[:3]]
+                        if all(S.eq(g, e) for g, e in zip(got, exp)):
+                            n_main += 1
+                except ValueError as e:
+                    ctx.undecided('R-ROTTOW', cfg, name, 'not analysable: %s' % e)
+                    continue
+                if n_main == 0:
+                    bad = 'no branch is self rotated about normalize(self x rhs) by the clamped angle'
+        done('R-ROTTOW', name, bad, it)
+
+
 def _abstract_harness(F):
     """harness in which the polynomial arccos is the symbol acos_approx(.) and the SSE2 sine polynomial is sin(.) lane-wise (both certified by R-APPROX)"""
     from harness import Harness
@@ -485,6 +616,8 @@ def run(ctx):
                         if not okG:
                             bad = 'end point is not negated exactly when dot < 0: guard %s' % tm.show(G, 0, 3)[:160]
                 done('R-ARC', name, bad, it)
+        # R-ROTTOW: vector rotate_towards is a rotation of self by the clamped angle
+        check_rotate_towards(ctx, cfg, F, done)
         # R-ARCROT: from_rotation_arc(a, b) rotates a onto b
         check_rotation_arc(ctx, cfg, F, H, done)
         # R-SLERP: the interpolation formula itself, with the arccos and sine evaluations as opaque function symbols
